@@ -139,13 +139,43 @@ def run_arena(ctx, test, vin, rj, tag, trace=None, trace_n=0):
         raise vlib.Inconclusive("C11 harness %s did not complete (rc=%s):\n%s" % (test, rc, out[-3000:]))
 
 
+def history_subset(ctx, vecs):
+    """Arena H (first run -> real install wizard -> same process): every vector of the state
+    (installed, user exists) that carries no basic credentials, and a seeded sample of those that
+    do (the wizard hashes with the default bcrypt cost: ~60 ms per basic-auth request).  Cookie
+    histories that contain a restart are not sent: a restart is a new boot."""
+    cap = 150 if ctx.quick else 600
+    out, withbasic = [], []
+    for v in vecs:
+        if v["fr"] or not v["hu"] or v["ck"] in ("loggedOutRestarted", "expiredRestarted"):
+            continue
+        if v["ba"] == "none":
+            out.append(v)
+        else:
+            withbasic.append(v)
+    withbasic.sort(key=lambda v: hashlib.sha1(("%d|h|%s|%s" % (ctx.seed, v["rk"], v["reg"])).encode()).hexdigest())
+    # the telling ones first: canonical path, no cookie
+    front = [v for v in withbasic if v["sp"] == "canonical" and v["ck"] == "none"]
+    rest = [v for v in withbasic if not (v["sp"] == "canonical" and v["ck"] == "none")]
+    return out + front[:cap] + rest[:cap // 3]
+
+
 def both_arenas(ctx, vecs, rj, tag, trace=None, trace_n=0):
+    """Runs the three arenas (R, S, H) as concurrent processes."""
     vin = ctx.path("c11_in_%s.ndjson" % tag)
     vlib.write_ndjson(vin, [go_vec(v) for v in vecs])
-    with concurrent.futures.ThreadPoolExecutor(2) as ex:
+    vinh = ctx.path("c11_in_%s_h.ndjson" % tag)
+    if tag == "main":
+        hv = history_subset(ctx, vecs)
+    else:   # re-runs and replays: everything that is a vector of arena H's state
+        hv = [v for v in vecs if not v["fr"] and v["hu"] and v["ck"] not in ("loggedOutRestarted", "expiredRestarted")][:3000]
+        hv = hv or [dict(vecs[0], pat="/zz-none", to="/zz-none", exp=[])]
+    vlib.write_ndjson(vinh, [go_vec(v) for v in hv])
+    with concurrent.futures.ThreadPoolExecutor(3) as ex:
         fr = ex.submit(run_arena, ctx, "TestZZVerifC11Real", vin, rj, tag + "_R", trace, trace_n)
         fs = ex.submit(run_arena, ctx, "TestZZVerifC11Fresh", vin, rj, tag + "_S")
-        return fr.result() + fs.result()
+        fh = ex.submit(run_arena, ctx, "TestZZVerifC11History", vinh, rj, tag + "_H")
+        return fr.result() + fs.result() + fh.result()
 
 
 def classify(rec):
@@ -230,7 +260,7 @@ def run(ctx):
         raise vlib.Inconclusive("patterns served by the real mux that the extractor did not find: %s" % unexplained)
     real_live = set()
     for c in census:
-        if c["arena"] == "R" or c["phase"] == "first-run":
+        if c["arena"] in ("R", "H") or c["phase"] == "first-run":
             real_live.update(c["patterns"])
     real_live |= (live_all - probed)
     never_live = sorted(admin_linux - live_all)
